@@ -26,8 +26,8 @@ ASSUMPTIONS = [
     "rate acceptance: |a-a_ref| <= 1e-7|a_ref| + 1e-6(a_ref+b_ref) (an error that moves neither x_inf nor tau by 1e-6); "
     "x_inf 1e-7 absolute, tau 1e-7 relative; currents 1e-9 of the sum of |terms|",
     "documented defaults = the defaults of the pinned tree (docstrings/tutorials give no other table)",
-    "open finding N6: CaT tau_u where an exponential argument exceeds 20 (v+vx > -20) is compared with the published "
-    "formula with both exponentials capped at exp(20)",
+    "fixed finding N6 (CaT tau_u frozen where an exponential argument exceeded 20): a tau_u that again equals the published "
+    "formula with both exponentials capped at exp(20) is reported under its own clause",
 ]
 TECHNIQUE = "property-based testing (Hypothesis) against hand-transcribed published formulas (reference model) + metamorphic renaming"
 LEVEL_TEXT = (
@@ -252,7 +252,7 @@ def judge(spec, tier="quick"):
                 out.violate("raises", f"{mech}.update_states raised {err.short()}", etype=err.etype, frame=err.frame)
                 break
             for g, gfun in table["gates"].items():
-                kind, ar, br = gfun(v, P, saturate_at=20.0) if mech == "CaT" else gfun(v, P)  # CaT: saturated form of open finding N6
+                kind, ar, br = gfun(v, P)
                 xr, tr = R2.steady_tau(kind, ar, br)
                 want = R2.exp_update(Sd[g], dt, xr, tr)
                 got = np.asarray(res.get(f"{pre}_{g}", np.full(n, np.nan)), float)
